@@ -233,11 +233,9 @@ def raw_word_vs_view(res, facts):
     return n
 
 
-def run(facts):
-    res = Result("E2", "the even/odd promotable vtables are slot-wise isomorphic modulo unmasking; the parity dispatch pairs tagged data with the "
-                       "unmasking vtable; KIND constants and alignment assertions agree between the two modules")
+def parity_vtables(facts):
+    """([even vtable name], [odd vtable name]) of the promotable representation"""
     vts = roles.vtables(facts)
-    sites = atomic_sites(facts)
     even = [n for n in vts if "EVEN" in n.upper()]
     odd = [n for n in vts if "ODD" in n.upper()]
     # discover the sibling pair structurally if names ever change: two vtables sharing an is_unique slot function
@@ -252,6 +250,15 @@ def run(facts):
         if len(pairs) != 1:
             raise RuleError("parity sibling vtables not found")
         even, odd = [pairs[0][0]], [pairs[0][1]]
+    return even, odd
+
+
+def run(facts):
+    res = Result("E2", "the even/odd promotable vtables are slot-wise isomorphic modulo unmasking; the parity dispatch pairs tagged data with the "
+                       "unmasking vtable; KIND constants and alignment assertions agree between the two modules")
+    vts = roles.vtables(facts)
+    sites = atomic_sites(facts)
+    even, odd = parity_vtables(facts)
     E, O = vts[even[0]], vts[odd[0]]
     did = lambda s: s.get("did") if s.get("did") is not None else (s.get("res") or {}).get("did")
     for slot in sorted(E):
